@@ -32,8 +32,10 @@ func verifC20Readers(o Option, fine bool) {
 	e0 := o.ToBytes()
 	nr := verifOptionReaders(o)
 	dg := make([][]byte, nr)
+	var keep verifKeep
 	for k := 0; k < nr; k++ {
-		dg[k] = verifOptionReader(o, k)
+		dg[k] = verifOptionReaderK(o, k, &keep.refs)
+		keep.snapshot()
 		if fine {
 			verifAssert(verifSame(o.ToBytes(), e0), "reader-leaves-encoding-unchanged")
 		}
@@ -42,11 +44,32 @@ func verifC20Readers(o Option, fine bool) {
 	// again in the opposite order: same results, same encoding
 	for k := nr - 1; k >= 0; k-- {
 		verifAssert(verifSame(verifOptionReader(o, k), dg[k]), "repeated-calls-return-equal-results")
+		keep.check()
 		if fine {
 			verifAssert(verifSame(o.ToBytes(), e0), "reader-leaves-encoding-unchanged")
 		}
 	}
 	verifAssert(verifSame(o.ToBytes(), e0), "reader-leaves-encoding-unchanged")
+	keep.check()
+}
+
+// verifKeep holds the byte slices readers handed out (the slices themselves) beside copies taken
+// at that moment: a later read-only call must not rewrite what an earlier one returned.
+type verifKeep struct {
+	refs, copies [][]byte
+}
+
+func (k *verifKeep) snapshot() {
+	k.check() // after every call: a buffer that is rewritten and later restored must not go unseen
+	for i := len(k.copies); i < len(k.refs); i++ {
+		k.copies = append(k.copies, append([]byte(nil), k.refs[i]...))
+	}
+}
+
+func (k *verifKeep) check() {
+	for i := range k.copies {
+		verifAssert(verifSame(k.refs[i], k.copies[i]), "results-handed-out-earlier-are-not-rewritten-by-later-calls")
+	}
 }
 
 // VerifC20Message: a message (relay = 1: a relay-forward wrapping it; 2, 3: a relay-forward holding
@@ -98,43 +121,59 @@ func VerifC20Message(idx, n, relay int) {
 		verifReach("end")
 		return
 	}
+	verifC20MsgReaders(d)
+	verifReach("end")
+}
+
+// verifC20MsgReaders: every read-only method of the message / relay message and of its option
+// accessors, results folded and kept, then again in the opposite order.
+func verifC20MsgReaders(d DHCPv6) {
 	e0 := d.ToBytes()
+	var keep verifKeep
 	switch m := d.(type) {
 	case *Message:
 		n1, n2 := len(verifMessageReaderNames), len(verifMessageOptionsReaderNames)
 		d1, d2 := make([][]byte, n1), make([][]byte, n2)
 		for k := 0; k < n1; k++ {
-			d1[k] = verifMessageReader(m, k)
+			d1[k] = verifMessageReaderK(m, k, &keep.refs)
+			keep.snapshot()
 			verifAssert(verifSame(d.ToBytes(), e0), "message-reader-leaves-encoding-unchanged")
 		}
 		for k := 0; k < n2; k++ {
-			d2[k] = verifMessageOptionsReader(m.Options, k)
+			d2[k] = verifMessageOptionsReaderK(m.Options, k, &keep.refs)
+			keep.snapshot()
 			verifAssert(verifSame(d.ToBytes(), e0), "options-reader-leaves-encoding-unchanged")
 		}
 		for k := n2 - 1; k >= 0; k-- {
 			verifAssert(verifSame(verifMessageOptionsReader(m.Options, k), d2[k]), "repeated-calls-return-equal-results")
+			keep.check()
 		}
 		for k := n1 - 1; k >= 0; k-- {
 			verifAssert(verifSame(verifMessageReader(m, k), d1[k]), "repeated-calls-return-equal-results")
+			keep.check()
 		}
 	case *RelayMessage:
 		n1, n2 := len(verifRelayMessageReaderNames), len(verifRelayOptionsReaderNames)
 		d1, d2 := make([][]byte, n1), make([][]byte, n2)
 		for k := 0; k < n1; k++ {
-			d1[k] = verifRelayMessageReader(m, k)
+			d1[k] = verifRelayMessageReaderK(m, k, &keep.refs)
+			keep.snapshot()
 			verifAssert(verifSame(d.ToBytes(), e0), "relay-reader-leaves-encoding-unchanged")
 		}
 		for k := 0; k < n2; k++ {
-			d2[k] = verifRelayOptionsReader(m.Options, k)
+			d2[k] = verifRelayOptionsReaderK(m.Options, k, &keep.refs)
+			keep.snapshot()
 			verifAssert(verifSame(d.ToBytes(), e0), "relay-options-reader-leaves-encoding-unchanged")
 		}
 		for k := n2 - 1; k >= 0; k-- {
 			verifAssert(verifSame(verifRelayOptionsReader(m.Options, k), d2[k]), "repeated-calls-return-equal-results")
+			keep.check()
 		}
 		for k := n1 - 1; k >= 0; k-- {
 			verifAssert(verifSame(verifRelayMessageReader(m, k), d1[k]), "repeated-calls-return-equal-results")
+			keep.check()
 		}
 	}
 	verifAssert(verifSame(d.ToBytes(), e0), "readers-leave-encoding-unchanged")
-	verifReach("end")
+	keep.check()
 }
